@@ -478,31 +478,33 @@ func c13Quantile(c *Ctx, a *sketchAnchors) {
 		if !c.mustFunc(rule, fb, n.t+" GetValuesAtQuantiles") {
 			continue
 		}
-		ps, _ := exec(c, fb, nil, 2)
+		// visit bound 3: two turns of the element loop, so that an error of an earlier element that a later element
+		// overwrites is seen
+		ps, _ := exec(c, fb, nil, 3)
 		npaths := 0
 		for i, p := range ps {
-			// every path on which an inner call reported an error returns that error; every success path returns nil or the inner error value
-			var innerErr *Term
+			// every path on which an inner call reported an error returns that error; every success path returns nil or
+			// the inner error value; and the error of EVERY inner call of the path is tested or returned
+			var innerErrs []*Term
 			for _, e := range p.Calls() {
 				if isMethodCall(e.Call, n.inner) {
-					innerErr = mk("extract", "1", nil, e.Call)
+					innerErrs = append(innerErrs, mk("extract", "1", nil, e.Call))
 				}
 			}
-			if innerErr == nil {
+			if len(innerErrs) == 0 {
 				continue
 			}
 			npaths++
-			st := errState(p, innerErr)
 			last := p.RetT[len(p.RetT)-1]
 			ok := true
-			switch st {
-			case 1:
-				ok = last.Key() == innerErr.Key()
-			case 0:
-				ok = last.Key() == innerErr.Key() // returned untested
+			for _, innerErr := range innerErrs {
+				switch errState(p, innerErr) {
+				case 1, 0: // reported, or never tested: it is what the path returns
+					ok = ok && last.Key() == innerErr.Key()
+				}
 			}
 			c.R.check(ok, rule, fmt.Sprintf("%s/path%d[%s]/propagates", shortFn(fb), i, pathSig(p)), shortFn(fb), c.fpos(fb),
-				"an error of the per-quantile query is returned", describeRet(p))
+				"an error of the per-quantile query — of every element — is returned", describeRet(p))
 		}
 		if npaths == 0 && n.t == "plain" {
 			// the plain batch query no longer calls the single query: it refuses exactly what the single query refuses
